@@ -403,13 +403,24 @@ func c04Errors(c *Ctx) {
 		good := false
 		for _, ex := range CallsIn(fn, "commands.Exit", "os.Exit") {
 			for _, dc := range decidingConds(fn, ex.Block()) {
-				if ph, ok := dc.Cond.(*ssa.Phi); ok && !dc.Want && (ph.Comment == "success" || ph.Comment == "ok") {
+				if ph, ok := dc.Cond.(*ssa.Phi); ok && !dc.Want {
 					if name == "pull" {
+						// whatever the flag is called: it is false once the loop over q.Errors() ran
 						if okPhiFalseInErrorsLoop(p, fn, ph) {
 							good = true
 						}
-					} else {
+					} else if ph.Comment == "success" || ph.Comment == "ok" {
 						good = true
+					}
+				}
+				// or the test is on the error list itself: len(q.Errors()) > 0
+				if op, x, y, ok := BinCmp(dc.Cond); ok && name == "pull" {
+					if lc, isCall := x.(*ssa.Call); isCall {
+						if bi, isB := lc.Call.Value.(*ssa.Builtin); isB && bi.Name() == "len" && ResultOfCallNamed(lc.Call.Args[0], "(*tq.TransferQueue).Errors") {
+							if k, isK := ConstInt(y); isK && k == 0 && ((op == token.GTR || op == token.NEQ) == dc.Want) && (op == token.GTR || op == token.NEQ || op == token.EQL || op == token.LEQ) {
+								good = true
+							}
+						}
 					}
 				}
 				if al, ok := dc.Cond.(*ssa.UnOp); ok && !dc.Want {
